@@ -683,6 +683,7 @@ int main(int argc, char** argv) {
                                 ArS(std::shared_ptr<Deck> d, const std::map<Tree::Id, float>& vs)
                                     : BaseEvaluator(d, vs), ArrayEvaluator(d, vs) {}
                                 bool any_nan() const { for (long k = 0; k < v.rows(); ++k) if (std::isnan(v(k, 0))) return true; return false; }
+                                bool any_big() const { for (long k = 0; k < v.rows(); ++k) if (!(std::fabs(v(k, 0)) <= 1e6f)) return true; return false; }
                             };
                             ArS ea(std::make_shared<Deck>(roots[i]), vals_a), eb(std::make_shared<Deck>(sh.tree), vals_b);
                             for (int q = 0; q < 6; ++q) {
@@ -692,6 +693,19 @@ int main(int argc, char** argv) {
                                 // orders operands by address: points where ANY sub-expression is NaN are
                                 // outside the domain (a finite result can still depend on the order)
                                 if (std::isnan(va) || std::isnan(vb) || ea.any_nan() || eb.any_nan()) continue;
+                                // conditioning: huge intermediates (sin(exp(..))) or a value that moves when the point
+                                // moves by a few ulps cannot be compared between two association orders
+                                if (ea.any_big() || eb.any_big()) continue;
+                                {
+                                    bool stable = true;
+                                    for (float sgn : {1.0f, -1.0f}) {
+                                        Eigen::Vector3f pq = p.array() * (1.0f + sgn * 4e-7f) + sgn * 4e-7f;
+                                        float vq = ea.value(pq);
+                                        if (!(std::fabs(vq - va) <= 0.25f * 1e-4f * (1 + std::fabs(va)))) stable = false;
+                                    }
+                                    ea.value(p);
+                                    if (!stable) continue;
+                                }
                                 ++pts;
                                 bool same = va == vb ||
                                             std::fabs(va - vb) <= 1e-4f * (1 + std::fabs(va));
@@ -1056,10 +1070,32 @@ int main(int argc, char** argv) {
                         bool ao = eo.getAmbiguous(1)(0), ae = ee.getAmbiguous(1)(0);
                         // the oracle path may report a superset of ambiguities, never miss one that changes the gradient
                         auto fo = eo.features(p); auto fe = ee.features(p);
+                        // conditioning of the point: the plain tree's own gradient must not move by a sizeable part
+                        // of the tolerance when the point moves by a few ulps, and gradients of 1e4 and more
+                        // (cos(exp(..)) of a huge argument) are not compared at all
+                        bool pt_stable = de.array().isFinite().all() && de.head<3>().norm() < 1e4f;
+                        for (auto& f : fe) if (!(f.norm() < 1e4f)) pt_stable = false;
+                        if (pt_stable) {
+                            const float gtol0 = 2e-3f * (1 + de.head<3>().norm());
+                            for (float sgn : {1.0f, -1.0f}) {
+                                Eigen::Vector3f pq = p.array() * (1.0f + sgn * 4e-7f) + sgn * 4e-7f;
+                                Eigen::Vector4f dq = ee.deriv(pq);
+                                // (at a tie the one-sided gradient may legitimately jump to another feature)
+                                bool near_feature = false;
+                                for (auto& f : fe) if ((dq.head<3>() - f).norm() <= 0.25f * gtol0) near_feature = true;
+                                if (!dq.array().isFinite().all() ||
+                                    ((dq.head<3>() - de.head<3>()).norm() > 0.25f * gtol0 && !near_feature)) pt_stable = false;
+                            }
+                        }
                         if (!ao && !ae) {
                             if (d0.array().isFinite().all() && de.array().isFinite().all() && d0.head<3>().norm() < 1e3f) {
+                                // conditioning: a gradient that moves by a sizeable part of the tolerance when the point
+                                // moves by a few ulps (cos(exp(..)) with a huge argument) cannot be compared between two
+                                // evaluation orders; such points are not counted
+                                const float gtol = 2e-3f * (1 + de.head<3>().norm());
+                                if (!pt_stable) continue;
                                 ++gpts;
-                                if ((d0.head<3>() - de.head<3>()).norm() > 2e-3f * (1 + de.head<3>().norm())) { ++gbad; note("gradient", p); }
+                                if ((d0.head<3>() - de.head<3>()).norm() > gtol) { ++gbad; note("gradient", p); }
                             }
                         } else {
                             if (ae && !ao && fe.size() > 1) {
@@ -1073,7 +1109,7 @@ int main(int argc, char** argv) {
                         bool finite = true;
                         for (auto& f : fo) if (!f.array().isFinite().all()) finite = false;
                         for (auto& f : fe) if (!f.array().isFinite().all()) finite = false;
-                        if (finite && !fo.empty() && !fe.empty()) {
+                        if (finite && pt_stable && !fo.empty() && !fe.empty()) {
                             ++fpts;
                             auto covered = [](const std::list<Eigen::Vector3f>& A, const std::list<Eigen::Vector3f>& B) {
                                 for (auto& x : A) {
